@@ -21,6 +21,32 @@ def mem(args):
     return int(d.get("peak", -1)), d.get("status", out), int(d.get("out", -1))
 
 
+def rand_ascending_lines_request(rng):
+    """a random ASCENDING request of positive line numbers in every spelling the bounds language has for one: N, N:M, N:, :M — each bound starts at or
+    after the line the previous one ended on (`1,:3`, `2:4,4:6`, `:1,:2,4` are ascending: an open left side is line 1); which algorithm serves a request is
+    decided by code that looks at these spellings, and the documented memory bound must hold for all of them"""
+    out, prev = [], 1
+    for k in range(rng.randint(1, 4)):
+        lo = prev + rng.choice([0, 0, 1, 2])
+        hi = lo + rng.choice([0, 0, 1, 3])
+        last = (k == 3) or rng.random() < 0.3
+        if lo == 1 and rng.random() < 0.5:
+            t = f":{hi}"
+        elif last and rng.random() < 0.3:
+            t = f"{lo}:"
+            out.append(t)
+            break
+        elif hi == lo and rng.random() < 0.6:
+            t = str(lo)
+        else:
+            t = f"{lo}:{hi}"
+        out.append(t)
+        prev = hi
+        if last:
+            break
+    return ",".join(out)
+
+
 def run(chk):
     thorough = chk.tier == "thorough"
     chk.rule = ("peak live heap (counting global allocator, in-process, same BufReader/BufWriter capacities as main) for growing sizes; -M: one line "
@@ -122,7 +148,8 @@ def run(chk):
             pat = rng.choice([b"aaaaaaa-", b"aaaaaaaa", b"a-", b"-", b"aaaa\n", b"a-b-c-d\n", b"\n", b"a-\n"])
             name = "random -M option set: " + " ".join(toks(c)) + " pattern " + repr(pat)
         else:
-            c = {"kind": "cut", "bt": "l", "d": b"\n", "b": rng.choice(["1", "2,5:", "3:4,9", "1:", "2,4,6:", "7", "FAR", "2,FAR:", "FAR:FAR2"]), "j": rng.random() < 0.7}
+            c = {"kind": "cut", "bt": "l", "d": b"\n", "b": (rng.choice(["1", "2,5:", "3:4,9", "1:", "2,4,6:", "7", "FAR", "2,FAR:", "FAR:FAR2"]) if rng.random() < 0.4
+                                                             else rand_ascending_lines_request(rng)), "j": rng.random() < 0.7}
             pat = rng.choice([b"aa\n", b"\n", b"abcdefghij\n", b"a\nbb\n"])
             name = "random -l ascending request: " + " ".join(toks(c)) + " pattern " + repr(pat)
         runs = []
